@@ -31,6 +31,10 @@ CHECKS = {
          "Fault enumeration over seeded base schedules: each base (driver, 1-3 callers, reconnect limit/interval, exceptions on/off) runs fault-free to count simulator events, then once per (fault kind, event index): hidraw EOF / EIO, write OSError at every write including the handshake writes, device back after a seeded delay with failing opens, second loss during the reconnect wait or during the handshake, plain cancel / own-timeout of the running op (a subset followed by 300 further sends so sequence numbers wrap); serial: confirmation lost or later than the timeout, answer lost, cancel. Oracles: outcome of every send (correct answer of its own transmission, CommunicationError, or cancelled), bounded completion, lock/semaphore/in-flight-slot state at quiescence, status callbacks against a reference model with virtual timestamps and the retry schedule, handshake before any SEND, fresh sends after recovery. Single-fault placements are enumerated for the sampled bases only (quick: strided).",
          "Trusted base: gateway/hidraw presence models, reference model of DESIGN.md appendix C (the harness plays the application calling connect() again after 'failed' is due), documented serial timeouts taken literally.",
          "deterministic simulation with fault injection at every simulator event index (virtual clock, reference model for connection status)", "4"),
+ "C20": ("drvsim", "exploration",
+         "Seeded search over bus histories and timings: up to 8 transactions of other masters (plain, query with answer / silence / explicit no-frame / framing error, config sent twice / once / interrupted, EnableDeviceType + extended command, 24-bit commands, events with and without instance map, unknown frames, bursts) interleaved with the driver's own sends, every gap clearly shorter or longer than the 200 ms watcher timer, 0-3 subscribers joining and leaving between reports; the Tridonic bus watcher's callbacks are compared, per subscriber, with a sequential reference watcher fed with the very reports the gateway model delivered (virtual arrival times); LUBA/SCI distribution queues and hasseb own-traffic reports likewise. Runs with a realised gap inside 150-250 ms while a command is pending are set aside.",
+         "Trusted base: reference watcher (sim/refs/buswatch.py, DESIGN.md appendix B), gateway report formats, the library's own frame decoder for interpretation.",
+         "deterministic simulation (virtual clock around a 200 ms timer, seeded histories, reference watcher oracle)", "4"),
 }
 
 PLANNED = {}
